@@ -1486,20 +1486,20 @@ def builder_theorems():
     return [(m, n) for m, n in d['thm_mods']] + [('spec.BuilderProps', n) for n in d['device_theorems']]
 
 
-BUILDER_PARTIAL = ('PARTIAL: proved for 10 of the 12 builder bodies (accelerometer, interrupts, FIFO, auto-low-power, auto-wake-up, orientation, '
-                   'generic 1, generic 2, activity change, tap); the pin-mapping and wake-up builders are covered by the correspondence check and '
-                   'the monitor only (their verification conditions are not closed by the generic tactic yet)')
+BUILDER_PARTIAL = ('proved for all 12 builder write() bodies (accelerometer, interrupts, pin mapping, FIFO, auto-low-power, auto-wake-up, wake-up, '
+                   'orientation, generic 1, generic 2, activity change, tap); side condition of each per-call theorem: shadow and request bytes are '
+                   'below 256 (u8 typing; not chained as a Coq invariant along histories, which is the part of C01 that stays PARTIAL)')
 for pid_, extra, stmt in (
     ('C01', ['props.C01'], 'per builder, from every coherent state and for every byte-valued request: rejected with nothing changed, or accepted with the shadow = '
             'previous shadow with the block replaced by the request, the device enables 0x1F/0x20/0x2F = the expected ones (temporarily cleared bits are '
             'back) and every register outside block and enables untouched; with C16 the device holds the shadow on all 57 registers after every history'),
     ('C07', ['props.C07'], 'per builder: every journal entry carries the DEVICE enables at the instant of that write (entries_match) and for every parameter '
-            'register of the datasheet owner table the owning enable bits are clear at that instant (c07_partial_meaning)'),
+            'register of the datasheet owner table the owning enable bits are clear at that instant (c07_meaning)'),
     ('C08', ['props.C08'], 'per builder: no read; every write addresses the block or an enable register; a block register is written only with the requested value '
             'and only if the device held a different one at call time; foreign enable registers follow clear-then-restore (toggle_ok), own ones own_ok; '
             're-applying the current configuration writes no block register'),
 ):
-    names = {'C01': ['c01_partial_history', 'c01_partial_fifo_instance'], 'C07': ['c07_partial_meaning'], 'C08': ['c08_no_read', 'c08_partial_entry_meaning', 'c08_partial_reapply']}[pid_]
+    names = {'C01': ['c01_partial_history', 'c01_partial_fifo_instance'], 'C07': ['c07_meaning'], 'C08': ['c08_no_read', 'c08_entry_meaning', 'c08_reapply']}[pid_]
     PROPS[pid_] = {
         'targets': ['spec/BuilderProps.vo', 'props/%s.vo' % pid_],
         'theorems': (lambda names=names, pid_=pid_: builder_theorems() + [('props.' + pid_, n) for n in names]),
